@@ -600,19 +600,26 @@ FUNCS = [
     ("dqUpHeapify", DQ_RS, "up_heapify", "dq", []),
     ("dqHeapBuild", DQ_RS, "heap_build", "dq", [("arith", 326)]),
     ("dqFindMax", DQ_RS, "find_max", "dq", [("unwrap", 398)]),
+    ("dqFindMin", DQ_RS, "find_min", "dq", []),
+    ("pqPop", PQ_RS, "pop", "pq", []),
+    ("pqRemove", PQ_RS, "remove", "pq", []),
+    ("dqPopMin", DQ_RS, "pop_min", "dq", []),
+    ("dqPopMax", DQ_RS, "pop_max", "dq", []),
+    ("dqRemove", DQ_RS, "remove", "dq", []),
 ]
 # every constructor of `Src.FnId`, in the order of PQ/Model/Src.lean (functions not (yet) translated are `none`)
 ALL_FNIDS = ["storeSwap", "storePrioAt", "storeSwapRemove", "storeRemove",
              "pqHeapify", "pqBubbleUp", "pqUpHeapify", "pqHeapBuild",
              "dqHeapify", "dqHeapifyMin", "dqHeapifyMax", "dqBubbleUp", "dqBubbleUpMin", "dqBubbleUpMax",
-             "dqUpHeapify", "dqHeapBuild", "dqFindMax"]
+             "dqUpHeapify", "dqHeapBuild", "dqFindMax",
+             "dqFindMin", "pqPop", "pqRemove", "dqPopMin", "dqPopMax", "dqRemove"]
 HOLE_METHODS = ["new", "index_at", "move_from", "drop"]
 # methods of the queue (`self.m(..)`) / of the store (`self.store.m(..)`) that are calls of translated functions
 QUEUE_CALLS = {"pq": {"heapify": "pqHeapify", "bubble_up": "pqBubbleUp", "up_heapify": "pqUpHeapify",
                       "heap_build": "pqHeapBuild"},
                "dq": {"heapify": "dqHeapify", "heapify_min": "dqHeapifyMin", "heapify_max": "dqHeapifyMax",
                       "bubble_up": "dqBubbleUp", "up_heapify": "dqUpHeapify", "heap_build": "dqHeapBuild",
-                      "find_max": "dqFindMax"}}
+                      "find_max": "dqFindMax", "find_min": "dqFindMin"}}
 STORE_CALLS = {"swap": "storeSwap", "swap_remove": "storeSwapRemove", "remove": "storeRemove"}
 # return kinds of the callable functions: N = usize/Position/Index, U = (), P = &P
 # associated functions taking `hole: &mut Hole` (called as `Self::f(map, &mut hole, priority)`): in the IR the hole is passed
@@ -620,7 +627,8 @@ STORE_CALLS = {"swap": "storeSwap", "swap_remove": "storeSwapRemove", "remove": 
 HOLE_FNS = {"dq": {"bubble_up_min": "dqBubbleUpMin", "bubble_up_max": "dqBubbleUpMax"}}
 RET_KIND = {"storeSwap": "U", "storePrioAt": "P", "pqHeapify": "U", "pqBubbleUp": "N", "pqUpHeapify": "U",
             "pqHeapBuild": "U", "dqHeapify": "U", "dqHeapifyMin": "U", "dqHeapifyMax": "U", "dqBubbleUp": "N",
-            "dqUpHeapify": "U", "dqHeapBuild": "U"}
+            "dqUpHeapify": "U", "dqHeapBuild": "U", "storeSwapRemove": "E", "storeRemove": "R",
+            "dqFindMax": "ON", "dqFindMin": "ON"}
 
 
 # ----------------------------------------------------------------------------------------------------
@@ -723,6 +731,8 @@ class Lower:
                 return b[0]
             if b and b[0] == "mutref":
                 return "N"
+            if b and b[0] == "V":
+                return "V"
             return None
         if self.is_mapprio(e) is not None:
             return "P"
@@ -1058,8 +1068,58 @@ class Lower:
                     return [("lastMaxByPos", v, self.site("unwrap"), cands), ("retSomeN", ("var", v))]
                 return [("retSomeN", self.n(a))]
             raise Unparsed("optional result that is neither `None` nor `Some(e)`")
-        if tail_ret == "E":
+        if tail_ret == "E" and not self.live_holes:
             t0 = strip(e)
+            if t0 == ("path", ["None"]):
+                return [("retNoneE",)]
+            if t0[0] == "path" and len(t0[1]) == 1 and (self.lookup(t0[1][0]) or ("",))[0] == "V":
+                return [("retV", self.lookup(t0[1][0])[1])]
+            if t0[0] == "mcall" and self.place(t0[1]) == "STORE" and t0[2] in STORE_CALLS \
+                    and RET_KIND.get(STORE_CALLS[t0[2]]) == "E":
+                v = self.fresh("result", "V")
+                return [("callV", v, STORE_CALLS[t0[2]], [self.n(a) for a in t0[3]]), ("retV", v)]
+            if t0[0] == "mcall" and t0[2] == "and_then" and len(t0[3]) == 1 and t0[3][0][0] == "closure":
+                g, clo = strip(t0[1]), t0[3][0]
+                if g[0] == "mcall" and self.place(g[1]) == "QUEUE" and not g[3] \
+                        and RET_KIND.get(QUEUE_CALLS.get(self.owner, {}).get(g[2])) == "ON" \
+                        and len(clo[1]) == 1 and clo[1][0][0] == "pid" and clo[2][0] == "block":
+                    self.scopes.append({})
+                    try:
+                        v = self.fresh(clo[1][0][1], "N")
+                        self.bind(clo[1][0][1], ("N", v))
+                        body = self.block_stmts(clo[2], "E")
+                    finally:
+                        self.scopes.pop()
+                    return [("optCallN", v, QUEUE_CALLS[self.owner][g[2]], [], body, [("retNoneE",)])]
+                raise Unparsed("`and_then` that is not `self.find_min/find_max().and_then(|i| { .. })`")
+            if t0[0] == "mcall" and t0[2] == "map" and len(t0[3]) == 1 and t0[3][0][0] == "closure":
+                g, clo = strip(t0[1]), t0[3][0]
+                if g[0] == "mcall" and self.place(g[1]) == "STORE" and g[2] == "remove" and len(g[3]) == 1:
+                    k = strip(g[3][0])
+                    kb = self.lookup(k[1][0]) if k[0] == "path" and len(k[1]) == 1 else None
+                    ps = clo[1]
+                    if kb and kb[0] == "K" and len(ps) == 1 and ps[0][0] == "ptuple" and len(ps[0][1]) == 3 \
+                            and all(q[0] == "pid" for q in ps[0][1]) and clo[2][0] == "block" and clo[2][2] is not None:
+                        itn, prn, posn = [q[1] for q in ps[0][1]]
+                        res = strip(clo[2][2])
+                        if res[0] == "tuple" and len(res[1]) == 2 and strip(res[1][0]) == ("path", [itn]) \
+                                and strip(res[1][1]) == ("path", [prn]):
+                            # `item` / `priority` stay unbound: any other use inside the closure is rejected
+                            self.scopes.append({})
+                            try:
+                                v = self.fresh(posn, "N")
+                                self.bind(posn, ("N", v))
+                                self.scopes.append({})
+                                try:
+                                    code = []
+                                    for st in clo[2][1]:
+                                        code += self.stmt(st)
+                                finally:
+                                    self.scopes.pop()
+                            finally:
+                                self.scopes.pop()
+                            return [("mapRemoved", kb[1], v, code)]
+                raise Unparsed("`map` that is not `self.store.remove(item).map(|(item, priority, pos)| { ..; (item, priority) })`")
             if t0[0] == "mcall" and t0[2] == "swap_remove_index" and len(t0[3]) == 1 and self.place(t0[1]) == "MAP" \
                     and not self.live_holes:
                 return [("retMapSwapRemoveIndex", self.n(t0[3][0]))]
@@ -1170,6 +1230,12 @@ class Lower:
                 raise Unparsed("a hole that is not declared at the top level of the function")
             self.live_holes.append(h)
             return code
+        if declare and es[0] == "mcall" and self.place(es[1]) == "STORE" and es[2] in STORE_CALLS \
+                and RET_KIND.get(STORE_CALLS[es[2]]) == "E":
+            args = [self.n(a) for a in es[3]]
+            v = self.fresh(name, "V")
+            self.bind(name, ("V", v))
+            return [("callV", v, STORE_CALLS[es[2]], args)]
         mm = self.minmax_idiom(e)
         if mm is not None:
             sp = self.site("unwrap"); su = self.site("unwrap")
@@ -1509,6 +1575,12 @@ def pstmt(s, ind):
     if t in ("firstMinBy", "lastMaxBy"): return pad + "(.%s %d %d %d %s)" % (t, s[1], s[2], s[3], pns(s[4]))
     if t == "lastMaxByPos": return pad + "(.lastMaxByPos %d %d %s)" % (s[1], s[2], pns(s[3]))
     if t == "retSomeN": return pad + "(.retSomeN %s)" % pn(s[1])
+    if t == "callV": return pad + "(.callV %d .%s %s)" % (s[1], s[2], pns(s[3]))
+    if t == "retV": return pad + "(.retV %d)" % s[1]
+    if t == "retNoneE": return pad + ".retNoneE"
+    if t == "optCallN":
+        return pad + "(.optCallN %d .%s %s\n%s\n%s)" % (s[1], s[2], pns(s[3]), pstmts(s[4], ind + 2), pstmts(s[5], ind + 2))
+    if t == "mapRemoved": return pad + "(.mapRemoved %d %d\n%s)" % (s[1], s[2], pstmts(s[3], ind + 2))
     if t == "retNone": return pad + ".retNone"
     if t == "match2":
         return pad + "(.match2 %s %s\n%s\n%s\n%s\n%s)" % (pb(s[1]), pb(s[2]), pstmts(s[3], ind + 2), pstmts(s[4], ind + 2),
@@ -1534,7 +1606,7 @@ def emit(results, unparsed):
     for fnid in ALL_FNIDS:
         if fnid in results:
             r = results[fnid]
-            names = ", ".join("%d=%s%s" % (i, nm, {"N": "", "P": ":P", "K": ":key"}[k]) for i, (nm, k) in enumerate(r["vars"]))
+            names = ", ".join("%d=%s%s" % (i, nm, {"N": "", "P": ":P", "K": ":key", "V": ":value"}[k]) for i, (nm, k) in enumerate(r["vars"]))
             L.append("/-! `%s`: registers %s -/" % (fnid, names or "(none)"))
             for name, c, body in r["loops"]:
                 L.append("def %s_cond : BExpr :=\n  %s" % (name, pb(c)))
